@@ -157,6 +157,39 @@ def reactions_model():
     return wn
 
 
+def options_model():
+    """every option field carries a value different from its default and from every other field's"""
+    wn = base_model(0)
+    t, h, q, r, e = wn.options.time, wn.options.hydraulic, wn.options.quality, wn.options.reaction, wn.options.energy
+    t.duration, t.hydraulic_timestep, t.quality_timestep, t.rule_timestep = 7 * 3600, 1800, 300, 450
+    t.pattern_timestep, t.pattern_start, t.report_timestep, t.report_start, t.start_clocktime, t.statistic = 7200, 3600, 900, 2700, 12 * 3600 + 1800, "AVERAGED"
+    h.viscosity, h.specific_gravity, h.demand_multiplier = 1.1, 0.98, 1.3
+    h.demand_model, h.minimum_pressure, h.required_pressure, h.pressure_exponent, h.emitter_exponent = "PDA", 3.0, 21.0, 0.6, 0.45
+    h.trials, h.accuracy, h.unbalanced, h.unbalanced_value, h.checkfreq, h.maxcheck, h.damplimit, h.headerror, h.flowchange = 150, 0.002, "CONTINUE", 7, 3, 11, 0.01, 0.0004, 0.0005
+    q.parameter, q.chemical_name, q.diffusivity, q.tolerance = "CHEMICAL", "Cl2", 1.2, 0.02
+    r.bulk_coeff, r.wall_coeff, r.limiting_potential, r.roughness_correl = -0.4 / 86400.0, -0.2 / 86400.0, 1.5, 0.25
+    e.global_price, e.global_pattern, e.global_efficiency, e.demand_charge = 0.11 / 3600000.0, "pat2", 68.0, 2.5
+    return wn
+
+
+def add_multi_action_rule(wn):
+    """a rule with several THEN and several ELSE actions"""
+    t1, p2, p5, pu1, v1 = wn.get_node("T1"), wn.get_link("P2"), wn.get_link("P5"), wn.get_link("PU1"), wn.get_link("V1")
+    wn.add_control("r_multi", Rule(ValueCondition(t1, "level", ">", 4.25),
+                                   [ControlAction(p2, "status", LinkStatus.Closed), ControlAction(v1, "setting", 22.0)],
+                                   [ControlAction(p2, "status", LinkStatus.Open), ControlAction(p5, "status", LinkStatus.Open), ControlAction(pu1, "status", LinkStatus.Closed)],
+                                   name="r_multi", priority=4))
+    return wn
+
+
+def dict_only_models():
+    """states a dictionary can carry but an INP file cannot (C13 only)"""
+    wn = base_model(0)
+    wn.add_pipe("P7", "J6", "J8", length=90.0, diameter=0.2, roughness=95.0, check_valve=True)
+    wn.get_link("P7").initial_status = LinkStatus.Closed          # a check-valve pipe that starts closed (set on the element, not through add_pipe)
+    return [("feature:dict_only", wn)]
+
+
 def rule_tree_models():
     """condition trees over AND / OR up to depth 2 on three atoms (pre-survey finding 21)"""
     out = []
@@ -199,7 +232,7 @@ def example_networks(tier):
 def all_models(tier):
     out = [("feature:plain", base_model(0)), ("feature:pda", base_model(1)), ("feature:timed_leaks", base_model(2)), ("feature:simple_controls", add_controls(base_model(0), "simple")),
            ("feature:rules", add_controls(base_model(0), "rules")), ("feature:all_controls", add_controls(base_model(1), "all")),
-           ("feature:rule_units", add_rule_units(base_model(0))), ("feature:reactions", reactions_model())]
+           ("feature:rule_units", add_multi_action_rule(add_rule_units(base_model(0)))), ("feature:reactions", reactions_model()), ("feature:options", options_model())]
     for rel, path in example_networks(tier):
         with warnings.catch_warnings():
             warnings.simplefilter("ignore")
